@@ -17,6 +17,9 @@ pub struct Assigned<'a> {
     pub out: BTreeSet<String>,
     /// names of translated `&mut self` methods
     pub mut_methods: &'a [String],
+    /// variables that hold a `&mut` reference or a cursor model: passing one as a bare call argument (a reborrow or a
+    /// move) lets the callee mutate it
+    pub byref: Vec<String>,
 }
 
 /// root variable of a place expression
@@ -46,7 +49,7 @@ pub fn pat_idents(p: &syn::Pat, out: &mut Vec<String>) {
 
 impl<'a> Assigned<'a> {
     pub fn new(mut_methods: &'a [String]) -> Self {
-        Assigned { scopes: vec![BTreeMap::new()], scrut: Vec::new(), out: BTreeSet::new(), mut_methods }
+        Assigned { scopes: vec![BTreeMap::new()], scrut: Vec::new(), out: BTreeSet::new(), mut_methods, byref: Vec::new() }
     }
     fn declare_pat(&mut self, p: &syn::Pat, parent: Option<String>) {
         let mut v = Vec::new();
@@ -90,6 +93,23 @@ impl<'a> Assigned<'a> {
                         }
                         r = p
                     }
+                }
+            }
+        }
+    }
+}
+
+impl<'a> Assigned<'a> {
+    fn touch_byref_arg(&mut self, a: &syn::Expr) {
+        let mut e = a;
+        while let syn::Expr::Paren(p) = e {
+            e = &p.expr;
+        }
+        if let syn::Expr::Path(p) = e {
+            if p.qself.is_none() && p.path.segments.len() == 1 {
+                let n = p.path.segments[0].ident.to_string();
+                if self.byref.iter().any(|b| *b == n) {
+                    self.touch(e);
                 }
             }
         }
@@ -153,7 +173,16 @@ impl<'ast, 'a> Visit<'ast> for Assigned<'a> {
         }
         visit::visit_expr_binary(self, b);
     }
+    fn visit_expr_call(&mut self, c: &'ast syn::ExprCall) {
+        for a in &c.args {
+            self.touch_byref_arg(a);
+        }
+        visit::visit_expr_call(self, c);
+    }
     fn visit_expr_method_call(&mut self, m: &'ast syn::ExprMethodCall) {
+        for a in &m.args {
+            self.touch_byref_arg(a);
+        }
         let name = m.method.to_string();
         if MUTATING_METHODS.contains(&name.as_str()) || MUTATING_VALUE_METHODS.contains(&name.as_str()) || self.mut_methods.iter().any(|x| *x == name) {
             self.touch(&m.receiver);
